@@ -499,8 +499,111 @@ impl Check for Mutants {
     }
 }
 
+/// Type inference stress: unannotated functions applied to structures that contain the function
+/// (or its own parameter) again — every position where an inference variable could end up inside its
+/// own solution.
+pub struct Inference {
+    cases: Vec<String>,
+    chunk: usize,
+    scratch: Option<Scratch>,
+}
+impl Inference {
+    fn args(n: usize) -> Vec<String> {
+        // value terms with exactly n nodes over the atoms F (the function), (), 1
+        if n == 1 {
+            return vec!["F".into(), "()".into(), "1".into()];
+        }
+        let mut out = vec![];
+        for a in Self::args(n - 1) {
+            out.push(format!("(a = {a})"));
+            out.push(format!("{{ ret {a} }}"));
+            out.push(format!("{{ ! F {a} }}"));
+            out.push(format!("+K({a})"));
+        }
+        for k in 1..n - 1 {
+            for a in Self::args(k) {
+                for b in Self::args(n - 1 - k) {
+                    out.push(format!("({a}, {b})"));
+                }
+            }
+        }
+        if n >= 4 {
+            for a in Self::args(1) {
+                for b in Self::args(1) {
+                    for c in Self::args(n - 3) {
+                        out.push(format!("({a}, {b}, {c})"));
+                    }
+                }
+            }
+        }
+        out
+    }
+    pub fn new(tier: Tier) -> Self {
+        let max = if tier == Tier::Thorough { 5 } else { 4 };
+        let mut args = vec![];
+        for n in 1..=max {
+            args.extend(Self::args(n));
+        }
+        let ctxs = [
+            "let Ret = @(intrinsic(ret)) in let f = { fn x => ret x } in ! f ARG",
+            "let Ret = @(intrinsic(ret)) in let f = { fn x => ret x } in do y <- ! f ARG; ! f y",
+            "let Ret = @(intrinsic(ret)) in let f = { fn x y => ret x } in ! f ARG ARG",
+            "let Ret = @(intrinsic(ret)) in let g = { fn f => ! f ARG } in ret 0",
+            "let Ret = @(intrinsic(ret)) in (fix f => fn x => ! f ARG) 1",
+            "let Ret = @(intrinsic(ret)) in let f = { fn x => ret (x, ARG) } in ! f 1",
+        ];
+        let mut cases = vec![];
+        for c in ctxs {
+            for a in &args {
+                // only arguments that mention the function are interesting
+                if !a.contains('F') {
+                    continue;
+                }
+                cases.push(c.replace("ARG", &a.replace('F', "f")));
+            }
+        }
+        Inference { cases, chunk: 32, scratch: None }
+    }
+}
+impl Check for Inference {
+    fn property(&self) -> &'static str {
+        "C10"
+    }
+    fn name(&self) -> String {
+        "c10-inference".into()
+    }
+    fn len(&self) -> usize {
+        self.cases.len().div_ceil(self.chunk)
+    }
+    fn describe(&self, i: usize) -> String {
+        format!("programs #{}..; first: {}", i * self.chunk, self.cases[i * self.chunk])
+    }
+    fn rule(&self) -> String {
+        format!("6 contexts around an unannotated function f (applied, applied twice, bound as a parameter and applied, recursive through fix, returning a tuple) x every value term with at most 4 (thorough 5) nodes over {{f, (), 1}} built from pairs, triples, named fields, thunks returning / applying, a constructor, that mentions f ({} programs: self-application through every position of every structure, where an inference variable may occur in its own solution); each through the full front end with diagnostics rendered; a panic, abort, stack overflow or time-out is a violation; non-trivial = every chunk", self.cases.len())
+    }
+    fn crash_is_violation(&self) -> bool {
+        true
+    }
+    fn timeout(&self) -> std::time::Duration {
+        std::time::Duration::from_secs(60)
+    }
+    fn run(&mut self, i: usize) -> CaseResult {
+        let scratch = self.scratch.get_or_insert_with(|| Scratch::new("c10inf"));
+        let a = i * self.chunk;
+        let b = (a + self.chunk).min(self.cases.len());
+        let mut r = CaseResult::ok("chunk").key(i as u64).nontrivial(true);
+        for t in &self.cases[a..b] {
+            if let Some(v) = assess(scratch, "main.zydeco", t, &mut r, "inference") {
+                r = r.count(&format!("verdict_{}", v.tag()), 1);
+            }
+        }
+        r
+    }
+}
+
 pub fn checks(tier: Tier) -> Vec<Box<dyn Check>> {
     vec![
+        Box::new(Inference::new(tier)),
         Box::new(Mutants::new(tier)),
         Box::new(Tokens::new(tier)),
         Box::new(Metadata::new()),
